@@ -826,7 +826,7 @@ func runBounded(id string) []boundedResult {
 func boundedEvidence(rs []boundedResult) []map[string]string {
 	out := []map[string]string{}
 	for _, r := range rs {
-		st := "held on every grid point"
+		st := "held on every point explored"
 		if r.Violation != "" {
 			st = "VIOLATION: " + r.Violation
 		}
